@@ -82,6 +82,7 @@ pub fn gcd_factors(n: &Uint, vals: &[MInt]) -> (r: (Vec<Uint>, Uint))
             assert(uv(*gcd1) > 0);
             assert(dvd(uv(*gcd1), uv(*gcd2)));
             assert(f0.take(f0.len() as int) =~= f0);
+            axiom_buint_eq(*gcd1, *gcd2);
         }
         if gcd1 == gcd2 {
             return;
@@ -98,6 +99,9 @@ pub fn gcd_factors(n: &Uint, vals: &[MInt]) -> (r: (Vec<Uint>, Uint))
             vstd::arithmetic::div_mod::lemma_small_mod(uv(*gcd2), pow_w(16));
             if k <= 1 { lemma_mul_one(uv(*gcd1) as int); if k == 0 { assert(false); } }
             axiom_uv_inj(p.mul_spec(*gcd1), *gcd2);
+            axiom_buint_eq(*gcd2, p.mul_spec(*gcd1));
+            assert(uv(*gcd2) > uv(*gcd1)) by { lemma_mul_le(2, k as int, uv(*gcd1) as int); };
+            assert(uv(p.mul_spec(*gcd1)) == uv(*gcd2));
         }
         debug_assert!(gcd2 > gcd1 && *gcd2 == p * gcd1);
         if crate::pseudoprime(p) || vals.len() <= 2 {
